@@ -19,7 +19,8 @@ def workload(ctx, g):
     for v, ec in pairs:
         for mi, mode in enumerate(MODES):
             cap = caps[v - 1][ec - 1][mi]
-            for n in (cap, cap - 1):
+            # cap + 1 does not fit (v, ec) but fits the next version: written without a version hint it must still round-trip
+            for n in (cap, cap - 1) + ((cap + 1,) if v < 40 and (v in (9, 10, 26, 27) or (v + ec + mi) % 3 == 0) else ()):
                 if n < 1:
                     continue
                 k += 1
